@@ -134,6 +134,14 @@ def run(ctx):
                       rename=_rename)
         _verdict(run, rule, lf, what, r, m)
 
+    # the resource reached is the one named: the schema loader answers from
+    # its cache only under the resource's own (normalised, non-empty) URL
+    lf = m.fn(LD + ".SchemaLoader.loadResource")
+    r = X.compare(P, lf, X.spec_method(P, "ref_info.py",
+                                       "schemaloader_loadResource",
+                                       LD + ".SchemaLoader"), rename=_rename)
+    _verdict(run, "C18.R3", lf, "cache keyed by the resource's own URL", r, m)
+
     _r4(ctx)
     # the fourth gate: an %include target goes through normalizeURL (and so
     # through its fragment gate) on every path, whatever form it has
